@@ -444,6 +444,7 @@ class Exec:
             if pat.startswith('*.') and name.endswith(pat[1:]): return h
             if pat.endswith('.*') and name.startswith(pat[:-1]): return h
         if isinstance(recv, PyList) and meth == 'append': return _h_list_append
+        if isinstance(recv, PyDict) and meth in _DICT_METHODS: return _DICT_METHODS[meth]
         h = self.inline_handler(name) or self.pure_fallback(name)
         if h is None and meth in CLS.ids and CLS.is_sub(meth, 'BaseException') and recv is None:          # ValueError("...") / exceptions.SendTaskError(...): a new exception object of that class
             return lambda ex, st, e, r, a, kw, k, K: k(st, new_exc(st, meth))
@@ -688,6 +689,13 @@ class Exec:
 def _h_list_append(ex, st, e, l, args, kw, k, K):
     st.heap = st.heap.copy(); hh = st.heap; m = hh.llen[l.addr]
     hh.litem = Store(hh.litem, l.addr, Store(hh.litem[l.addr], m, to_val(args[0]))); hh.llen = Store(hh.llen, l.addr, m + 1); return k(st, None)
+def _h_dict_get(ex, st, e, d, args, kw, k, K):
+    kx = to_val(args[0]); return k(st, If(st.heap.dhas[d.addr][kx], st.heap.dval[d.addr][kx], to_val(args[1]) if len(args) > 1 else Val.none))
+def _h_dict_setdefault(ex, st, e, d, args, kw, k, K):
+    kx = to_val(args[0]); dv = to_val(args[1]) if len(args) > 1 else Val.none; st.heap = st.heap.copy(); h = st.heap
+    r = If(h.dhas[d.addr][kx], h.dval[d.addr][kx], dv)
+    h.dval = Store(h.dval, d.addr, Store(h.dval[d.addr], kx, r)); h.dhas = Store(h.dhas, d.addr, Store(h.dhas[d.addr], kx, True)); return k(st, r)
+_DICT_METHODS = {'get': _h_dict_get, 'setdefault': _h_dict_setdefault}
 class MergeFail(Exception): pass
 def _merge_vals(conds, vals):
     """ite-join of python-side values under mutually exclusive guards `conds`"""
@@ -782,7 +790,9 @@ class Source:
             def walk_top(stmts):          # definitions under module-level `if` / `try` blocks (version switches) are visible too; the first branch wins
                 for n in stmts:
                     if isinstance(n, (ast.FunctionDef, ast.AsyncFunctionDef, ast.ClassDef)): flat.append(n)
-                    elif isinstance(n, ast.If): walk_top(n.body); walk_top(n.orelse)
+                    elif isinstance(n, ast.If):          # a version switch: the names the first branch defines are taken from it (the branch in force with the installed dependencies: IS_PYDANTIC2, sys.version_info >= ...); the other branch only contributes names the first does not define
+                        k0 = len(flat); walk_top(n.body); in_body = {x.name for x in flat[k0:]}
+                        k1 = len(flat); walk_top(n.orelse); flat[k1:] = [x for x in flat[k1:] if x.name not in in_body]
                     elif isinstance(n, ast.Try): walk_top(n.body)
             walk_top(body)
             first = {}
